@@ -74,7 +74,7 @@ def log(msg):
 # --------------------------------------------------------------------------
 
 HARNESS_RE = re.compile(r"(?:\bfn\s+|!\(\s*)(c\d\d_[a-z0-9_]+)\b")
-ANNOT_RE = re.compile(r"^\s*//[/!]?\s*@(\w+)\s+(.*\S)\s*$")
+ANNOT_RE = re.compile(r"^\s*//[/!]?\s*@(\w+)(?:\s+(.*\S))?\s*$")
 
 
 def module_files(prop):
@@ -121,7 +121,7 @@ def discover_harnesses(prop):
                 if s.startswith("//"):
                     am = ANNOT_RE.match(lines[j])
                     if am:
-                        ann.setdefault(am.group(1), []).append(am.group(2))
+                        ann.setdefault(am.group(1), []).append(am.group(2) or "")
                     else:
                         doc.append(s.lstrip("/").strip())
                     j -= 1
@@ -138,6 +138,7 @@ def discover_harnesses(prop):
                 "out": " ".join(reversed(ann.get("out", []))) or " ".join(defaults.get("out", [])),
                 "flags": " ".join(ann.get("flags", [])),
                 "stubs": ann.get("stub", []),
+                "release": "release" in ann,
                 "doc": " ".join(doc),
             }
             out.append(h)
@@ -430,6 +431,19 @@ def check_property(prop, tier, only=None, jobs=None, seed=0, skip_smt=False, ski
     harnesses = discover_harnesses(prop)
     if tier == "quick":
         harnesses = [h for h in harnesses if h["tier"] == "quick"]
+    else:
+        # release-profile semantics: harnesses marked `// @release` are decided a second time
+        # with Kani's overflow checks off, i.e. arithmetic wraps as in a release build and only
+        # the harness's own assertions (and the memory-safety checks) can fail
+        rel = []
+        for h in harnesses:
+            if h.get("release"):
+                h2 = dict(h)
+                h2["flags"] = (h["flags"] + " --no-overflow-checks").strip()
+                h2["name"] = h["name"] + "__release_semantics"
+                h2["bound"] = h["bound"] + " [release profile: integer overflow wraps instead of panicking]"
+                rel.append(h2)
+        harnesses = harnesses + rel
     if only:
         harnesses = [h for h in harnesses if only in h["name"]]
 
